@@ -144,7 +144,15 @@ def run_scripted_shard(binary, wd, seed, n, replay=None):
 def exec_scripted_shards(binary, wd, seed, shards, n):
     with ThreadPoolExecutor(max_workers=min(16, shards)) as ex:
         futs = [ex.submit(exec_scripted, binary, os.path.join(wd, 's%d' % i), seed * 1000 + i, n) for i in range(shards)]
-        return [f.result() for f in futs]
+        out, errs = [], []
+        for f in futs:
+            try:
+                out.append(f.result())
+            except Exception as e:
+                errs.append(e)
+        if errs and not out:
+            raise errs[0]
+        return out
 
 # ------------------------------------------------------------------ real sockets
 
